@@ -75,3 +75,5 @@ impl super::Debugger {
             .verif_prolog_end_place(unit_idx, die_offset)
     }
 }
+// DR7 / DR6 images with the raw constructor/accessor `verif_from_raw` / `verif_raw` (C14)
+pub use super::register::debug::{DebugControlRegister, DebugStatusRegister};
